@@ -6,9 +6,12 @@ import (
 	"fmt"
 	"sort"
 	"strings"
+	"sync/atomic"
 	"testing"
 
 	"github.com/relab/hotstuff"
+	"github.com/relab/hotstuff/core/eventloop"
+	"github.com/relab/hotstuff/internal/proto/clientpb"
 )
 
 func c05ChainLen(cons string) int {
@@ -611,6 +614,97 @@ func c05RealTimers(cons string, seed int64) (commits map[string]int, sentInLoss 
 	return commits, sentInLoss, waited, nil
 }
 
+// c05Arrivals: a fault-free synchronous run on the replicas' real view timers in which the command
+// caches start EMPTY and a client keeps handing one new command to every replica every 2 ms, as clients do
+// (view timer 150 ms).
+// Commands pile up at a replica while others lead and are proposed by them; each replica leads every fourth
+// view. With commands always arriving, a leader's proposal may wait for the next command but never for its
+// view timer: every replica must keep committing and (nearly) no view may end by the local timer. Returns the
+// commits, views and local timeouts per replica inside a 3 s window that starts after a 0.5 s warm-up, and the
+// number of commands handed out.
+func c05Arrivals(cons string, seed int64) (commits map[string]int, views map[string]int, timeouts map[string]int, handed int, err error) {
+	spec := wSpec{consensus: cons, n: 4, seed: seed, timer: 150 * time.Millisecond, noPreload: true}
+	for i := 0; i < 40000; i++ {
+		spec.leaders = append(spec.leaders, hotstuff.ID(i%4+1))
+	}
+	w, err := newWorld(spec)
+	if err != nil {
+		return nil, nil, nil, 0, err
+	}
+	for _, id := range w.order {
+		w.partition[id] = 0
+	}
+	ctx, cancel := context.WithCancel(context.Background())
+	defer cancel()
+	var live []*wNode
+	localTimeouts := map[NodeID]*int{}
+	for _, id := range w.order {
+		nd := w.nodes[id]
+		live = append(live, nd)
+		cnt := new(int)
+		localTimeouts[nd.id] = cnt
+		eventloop.Register(nd.eventLoop, func(hotstuff.TimeoutEvent) { *cnt++ })
+	}
+	// the client: one command to every replica every 2 ms (CommandCache.Add is the concurrent entry point the
+	// client-facing server uses)
+	var handedOut atomic.Int64
+	clientDone := make(chan struct{})
+	go func() {
+		defer close(clientDone)
+		tick := time.NewTicker(2 * time.Millisecond)
+		defer tick.Stop()
+		for seq := uint64(1); ; seq++ {
+			select {
+			case <-ctx.Done():
+				return
+			case <-tick.C:
+			}
+			for _, nd := range live {
+				nd.cmdCache.Add(&clientpb.Command{ClientID: 7, SequenceNumber: seq, Data: []byte(fmt.Sprint(seq))})
+			}
+			handedOut.Add(1)
+		}
+	}()
+	for _, nd := range live {
+		nd.sync.Start(ctx)
+		w.drain(nd)
+	}
+	pump := func(d time.Duration) {
+		start := time.Now()
+		for time.Since(start) < d {
+			for guard := 0; len(w.pending) > 0 && guard < 2000 && time.Since(start) < d; guard++ {
+				m := w.pending[0]
+				w.pending = w.pending[1:]
+				to := w.nodes[m.to]
+				if p, ok := m.payload.(hotstuff.ProposeMsg); ok {
+					w.regProposal(&p)
+				}
+				to.eventLoop.AddEvent(m.payload)
+				w.drain(to)
+			}
+			for _, nd := range live {
+				w.drain(nd)
+			}
+			time.Sleep(200 * time.Microsecond)
+		}
+	}
+	pump(500 * time.Millisecond)
+	base, baseV, baseT := map[NodeID]int{}, map[NodeID]hotstuff.View{}, map[NodeID]int{}
+	for _, nd := range live {
+		base[nd.id], baseV[nd.id], baseT[nd.id] = len(nd.commits), nd.viewStates.View(), *localTimeouts[nd.id]
+	}
+	pump(3 * time.Second)
+	cancel()
+	<-clientDone
+	commits, views, timeouts = map[string]int{}, map[string]int{}, map[string]int{}
+	for _, nd := range live {
+		commits[nd.id.String()] = len(nd.commits) - base[nd.id]
+		views[nd.id.String()] = int(nd.viewStates.View() - baseV[nd.id])
+		timeouts[nd.id.String()] = *localTimeouts[nd.id] - baseT[nd.id]
+	}
+	return commits, views, timeouts, int(handedOut.Load()), nil
+}
+
 func TestVerifC05(t *testing.T) {
 	v := verifNew("C05")
 	sh := v.Stream("hist", "hist_mismatches", 12)
@@ -770,6 +864,33 @@ func TestVerifC05(t *testing.T) {
 		if stuck != "" {
 			v.Oracle(false, "liveness:no-commit-after-loss-with-real-view-timers:"+cons,
 				fmt.Sprintf("after a loss of 8 timer periods and 6 s of synchrony these replicas committed nothing new: %s(timeout messages sent during the loss: %v)", stuck, sent), meta)
+		} else {
+			v.Oracle(true, "", "", nil)
+		}
+	}
+	// 5. commands arriving while the system runs (empty caches at the start), on the real view timers
+	for _, cons := range []string{"chainedhotstuff", "simplehotstuff"} {
+		commits, views, timeouts, handed, err := c05Arrivals(cons, v.seed)
+		if err != nil {
+			t.Fatalf("world: %v", err)
+		}
+		meta := map[string]any{"kind": "commands-arrive-while-running", "consensus": cons, "n": 4, "timer_ms": 150, "one_command_every_ms": 2,
+			"window_ms": 3000, "warm_up_ms": 500, "commands_handed_to_every_replica": handed, "commits_in_window": commits, "views_in_window": views, "local_timeouts_in_window": timeouts}
+		slow := ""
+		for id, c := range commits {
+			// a quarter of the views ending by the replica's own timer (or next to no views at all) in a fault-free
+			// synchronous run: scheduling noise on a loaded machine stays far below that (a spurious timeout needs
+			// a stall of 150 ms)
+			if c < 3 || views[id] < 10 || 4*timeouts[id] > views[id] {
+				slow += fmt.Sprintf("%s(%d commits, %d views, %d of them ended by its own view timer) ", id, c, views[id], timeouts[id])
+			}
+		}
+		v.Note(fmt.Sprintf("commands arriving while running, %s: %d commands handed out, commits in the 3 s window %v, views %v, local timeouts %v", cons, handed, commits, views, timeouts))
+		v.Seen("arrivals/"+cons, true, meta)
+		v.Count("arrivals_" + cons)
+		if slow != "" && handed >= 200 {
+			v.Oracle(false, "liveness:leaders-wait-for-their-timers-with-commands-arriving:"+cons,
+				fmt.Sprintf("fault-free synchronous run, %d commands handed to every replica over 3.5 s (one every 2 ms), view timer 150 ms: in the 3 s window at these replicas a quarter or more of the views ended by the local view timer (or next to nothing happened): %s— a leader with commands arriving never has to wait for its timer", handed, slow), meta)
 		} else {
 			v.Oracle(true, "", "", nil)
 		}
